@@ -69,6 +69,15 @@ func (lc *Cache[K, V]) Get(key K) (val V, ok bool) {
 
 // Put sets `key` to `val`, evicting the least-recently-used entry if full.
 func (lc *Cache[K, V]) Put(key K, val V) {
+	if ei, ok := lc.hm.Get(key); ok {
+		// already cached, replace the value
+		// (a second entry would be stale and evicting it would lose the key)
+		lc.entries[ei].val = val
+		li := bytes.IndexByte(lc.lru, uint8(ei))
+		copy(lc.lru[li:], lc.lru[li+1:])
+		lc.lru[len(lc.lru)-1] = uint8(ei)
+		return
+	}
 	ei := len(lc.entries)
 	if ei < lc.size {
 		lc.entries = append(lc.entries, entry[K, V]{key: key, val: val})
